@@ -103,7 +103,7 @@ func TestVerifC17Close(t *testing.T) {
 	}
 	l := evlog.Open("C17")
 	defer l.Close()
-	causes := []string{"local-close", "remote-close", "remote-close-lost", "idle-timeout", "idle-timeout-replay", "stateless-reset", "transport-error", "transport-close", "local-close-send-error"}
+	causes := []string{"local-close", "remote-close", "remote-close-lost", "idle-timeout", "idle-timeout-replay", "idle-timeout-chatter", "stateless-reset", "transport-error", "transport-close", "local-close-send-error"}
 	var cases []c17Case
 	rng := l.Rand("c17")
 	idx := 0
@@ -145,7 +145,7 @@ func TestVerifC17Close(t *testing.T) {
 			}
 			for si, s := range sets {
 				idle := []int{1000, 5000, 30000}[rng.IntN(3)]
-				if cause == "idle-timeout" || cause == "idle-timeout-replay" || cause == "remote-close-lost" {
+				if cause == "idle-timeout" || cause == "idle-timeout-replay" || cause == "idle-timeout-chatter" || cause == "remote-close-lost" {
 					idle = []int{1000, 5000, 30000}[si%3]
 				}
 				client := "plain"
@@ -633,12 +633,24 @@ func runC17(l *evlog.Log, c *evlog.Case, cs *c17Case) {
 		wantVictim = "idle-timeout"
 		wantWire = "none"
 		maxWait = idle + 3*time.Second
-	case "idle-timeout", "idle-timeout-replay":
+	case "idle-timeout", "idle-timeout-replay", "idle-timeout-chatter":
 		w.Router.SetBlackhole(wiretap.C2S, true)
 		w.Router.SetBlackhole(wiretap.S2C, true)
 		wantVictim = "idle-timeout"
 		wantWire = "none"
 		maxWait = idle + 3*time.Second
+		if cs.Cause == "idle-timeout-chatter" {
+			// the victim's application keeps writing into the blackout: only the first ack-eliciting packet after
+			// the last one received restarts the idle period, the later ones must not keep the connection alive
+			go func() {
+				for i := 0; i < 40; i++ {
+					if _, err := u1.Write([]byte("still there?")); err != nil {
+						return
+					}
+					time.Sleep(idle / 5)
+				}
+			}()
+		}
 		if cs.Cause == "idle-timeout-replay" {
 			// late in the silence somebody replays a datagram the victim has already processed: a duplicate is
 			// dropped, it is not "a packet received" that restarts the idle period
@@ -767,7 +779,7 @@ func runC17(l *evlog.Log, c *evlog.Case, cs *c17Case) {
 		if doneAt-trigger > time.Second {
 			viol("cause-recorded-late", "context cancelled %s after the trigger", doneAt-trigger)
 		}
-	case "idle-timeout", "idle-timeout-replay", "remote-close-lost":
+	case "idle-timeout", "idle-timeout-replay", "idle-timeout-chatter", "remote-close-lost":
 		rmu.Lock()
 		lr, fs := lastRecv, firstAESendAfterRecv
 		rmu.Unlock()
